@@ -67,7 +67,7 @@ func (c16RT) RoundTrip(req *http.Request) (*http.Response, error) {
 	}
 	ans := 0
 	if rc.devs {
-		ans = vrt.Choose(4, "receiver-answer")
+		ans = vrt.Choose(6, "receiver-answer")
 	}
 	status := 200
 	switch ans {
@@ -77,8 +77,12 @@ func (c16RT) RoundTrip(req *http.Request) (*http.Response, error) {
 		status = 401
 	case 3:
 		s.Sleep(rc.slowNS)
+	case 4:
+		status = 201 // a receiver may acknowledge an upload with any 2xx status: the session goes on exactly as with 200
+	case 5:
+		status = 204
 	}
-	if ans != 0 {
+	if ans != 0 && ans < 4 {
 		rc.devsUsed++
 		if top, err := vref.Boxes(e.Body); err == nil && vref.Find(top, "moov") != nil && ans != 3 {
 			rc.initDevs++
